@@ -418,11 +418,78 @@ fn c06_async_client(case: &Case) {
     if simkernel::choose(8) == 0 {
         return c06_cancel_queued(case);
     }
+    if simkernel::choose(10) == 0 {
+        return c06_batch_timeout(case);
+    }
     match simkernel::choose(4) {
         0 | 1 => c06_fault(case),
         2 => c06_timeout_race(case),
         _ => c06_cancel(case),
     }
+}
+
+/// A batch with a timeout in which one entry is never answered in time: the results stay
+/// aligned, and the timed-out entry leaves nothing behind - no pending entry, no worker that
+/// keeps the connection alive after the last handle is dropped, no taker for its late reply.
+fn c06_batch_timeout(case: &Case) {
+    let n = range(2, 6) as usize;
+    let slow = simkernel::choose(n as u32) as usize;
+    let timeout_ms = pick(&[5u64, 20, 100]);
+    let late_reply = coin();
+    case.sample(json!({"scenario": "batch-with-timeout", "entries": n, "slow_entry": slow, "timeout_ms": timeout_ms, "late_reply_for_the_slow_entry": late_reply}));
+    net::set_config(NetConfig { capacity: 65_536, lat_min: 0, lat_max: pick(&[0u64, 50_000]), max_segment: 0 });
+    let case = case.clone();
+    aio::run(&case.clone(), 3_600, async move {
+        let listener = TcpListener::bind("127.0.0.1:0").await.unwrap();
+        let addr = listener.local_addr().unwrap();
+        let saw_eof = Arc::new(AtomicBool::new(false));
+        let saw_eof2 = saw_eof.clone();
+        // answers everything at once except "/echo/victim", whose reply comes 300 ms late (or never)
+        let hold = move |arrive: u64| arrive + 300_000_000;
+        let srv_case = case.clone();
+        let server = tokio::spawn(async move {
+            victim_server(listener, srv_case, hold, late_reply).await;
+            saw_eof2.store(true, Ordering::SeqCst);
+        });
+        let client = match AsyncClient::connect(addr).await {
+            Ok(c) => c,
+            Err(e) => {
+                case.harness_error(format!("connect failed: {e}"));
+                return;
+            }
+        };
+        let reqs: Vec<(String, Value)> = (0..n).map(|i| (if i == slow { "/echo/victim".to_string() } else { format!("/echo/b{i}") }, token_value(500 + i as u64))).collect();
+        let out = client.batch_json_with_timeout(reqs, Duration::from_millis(timeout_ms)).await;
+        case.check(out.len() == n, "batch-misaligned", || format!("batch of {n} returned {} results", out.len()));
+        for (i, r) in out.iter().enumerate() {
+            if i == slow {
+                case.check(r.is_err(), "ok-without-response", || format!("the slow entry {i} was not answered within {timeout_ms} ms but returned Ok"));
+            } else {
+                case.check(matches!(r, Ok(v) if *v == token_value(500 + i as u64)), "unrelated-call-failed", || format!("batch entry {i} next to a timed-out entry: {:?}", r.as_ref().map(|v| v.to_string()).map_err(|e| e.to_string())));
+            }
+        }
+        case.check(client.verif_pending_len() == 0, "pending-residue", || format!("{} pending entries right after a batch whose entry {slow} timed out", client.verif_pending_len()));
+        // the late reply (if any) arrives now: nobody may take it, and other calls keep working
+        sleep_ms(400).await;
+        if let Err(e) = do_call(&client, CallKind::Json, 777, None).await {
+            case.fail("unrelated-call-failed", format!("call after a batch with a timed-out entry: {e}"));
+        }
+        case.check(client.verif_pending_len() == 0, "pending-residue", || format!("{} pending entries after the late reply", client.verif_pending_len()));
+        // the last handle goes: the connection must go with it
+        drop(client);
+        let eof = saw_eof.clone();
+        let closed = timeout(Duration::from_secs(30), async move {
+            while !eof.load(Ordering::SeqCst) {
+                sleep_ms(1).await;
+            }
+        })
+        .await
+        .is_ok();
+        case.check(closed, "connection-kept-alive", || "every client handle was dropped after a batch with a timed-out entry, but the peer saw no end-of-stream within 30 s (something still holds the connection)".into());
+        server.abort();
+        case.probe("batch_entry_timed_out");
+        case.nontrivial();
+    });
 }
 
 /// A call is abandoned while it is still *queued behind* a sibling whose large request is
